@@ -54,7 +54,9 @@ def cases(draw):
         if shape in ("omit", "kw", "mixed") and ndef and draw(st.booleans()):
             stop = draw(st.integers(n - ndef, n))
         npos = stop if shape in ("pos", "omit", "starseq", "starmap") else (0 if shape == "kw" else draw(st.integers(0, stop)))
-        vals = [str(draw(st.integers(1, 9))) for _ in range(stop)]
+        # values: digits, and now and then a string literal with non-ASCII characters or a small expression (what follows them
+        # in the call is at different byte and character columns)
+        vals = [draw(st.sampled_from(["%d", "%d", "%d", "%d", "'\u00e9\u00df%d'", "(%d + 1)"])) % draw(st.integers(1, 9)) for _ in range(stop)]
         for k in range(stop):
             if k < npos:
                 args.append(vals[k])
